@@ -33,6 +33,7 @@ func (ex *Exec) step(fr *Frame, st *State, ins ssa.Instruction) {
 		}
 		ex.nilCheck(fr, st, p, x.Pos())
 		ex.guardedAccess(fr, st, p, 2, "assignment", x.Pos())
+		ex.guardedOwned(fr, st, p, x)
 		ex.storeTo(st, p, ex.val(fr, st, x.Val))
 	case *ssa.UnOp:
 		fr.env[x] = ex.unop(fr, st, x)
@@ -151,6 +152,9 @@ func (ex *Exec) step(fr *Frame, st *State, ins ssa.Instruction) {
 		ex.ncell++
 		fr.env[x] = IntConst(int64(-ex.ncell))
 	case *ssa.MapUpdate:
+		// assert site "@builtin.mapupdate": b0 the map, b1 the key, b2 the value
+		ex.checkAsserts(fr, st, "builtin.mapupdate", []string{"b0", "b1", "b2"}, []types.Type{x.Map.Type(), x.Key.Type(), x.Value.Type()},
+			[]Val{ex.val(fr, st, x.Map), ex.val(fr, st, x.Key), ex.val(fr, st, x.Value)}, x.Pos())
 		ex.mapUpdate(fr, st, x)
 	case *ssa.Lookup:
 		fr.env[x] = ex.lookup(fr, st, x)
